@@ -60,7 +60,7 @@ func (f *Subtract) Call(s *slip.Scope, args slip.List, depth int) (dif slip.Obje
 				case *slip.LongFloat:
 					dif = (*slip.LongFloat)(new(big.Float).Neg((*big.Float)(td)))
 				case *slip.Bignum:
-					dif = (*slip.Bignum)(new(big.Int).Neg((*big.Int)(td)))
+					dif = slip.IntegerFromBig(new(big.Int).Neg((*big.Int)(td)))
 				case *slip.Ratio:
 					dif = (*slip.Ratio)(new(big.Rat).Neg((*big.Rat)(td)))
 				case slip.Complex:
